@@ -26,7 +26,7 @@ def run(ctx):
                 "sets of entries) with VpKytea!Convert and its scores on probe texts with RefScores; every proper prefix of every "
                 "generated file and of resources/kytea-model.bin must be rejected; non-trivial = model with a dictionary word")
     consts = {"CharWs": {1, 2, 3} if not q else {1, 3}, "TypeWs": {1, 2}, "DictNs": {1, 2, 3} if not q else {1, 3},
-              "NDictsSet": {0, 1, 2, 3} if not q else {0, 2, 3}, "CSets": {0, 5, 63, 20} if not q else {5, 63},
+              "NDictsSet": {0, 1, 2, 3, 8} if not q else {0, 2, 3, 8}, "CSets": {0, 5, 63, 20} if not q else {5, 63},
               "TSets": {0, 7, 60, 63, 451, 199} if not q else {7, 60, 451, 199}, "WSets": {0, 3, 15} if not q else {3, 15},
               "Surplus": 1, "NTagsSet": {0, 1, 2} if not q else {0, 2}}
     res = vlib.tlc("C17-gen-kytea", "Gen_Kytea", vlib.cfg_text(constants=consts, invariants=["WF", "Emit"]), timeout=3000)
@@ -40,7 +40,10 @@ def run(ctx):
     for i, c in enumerate(cases):
         path = os.path.join(wd, f"k{i}.bin")
         with open(path, "wb") as f:
-            f.write(kytea_writer.write(c["km"]))
+            km = dict(c["km"])
+            if km.get("ntags", 0) >= 1 and i % 3 == 0:
+                km["do_tags"] = 0          # e.g. a model trained with -notags on a tagged corpus: same segmentation model
+            f.write(kytea_writer.write(km))
         send.append({"id": i, "kind": "kytea", "path": path, "probes": [p["text"] for p in c["probes"]],
                      "cuts": (i % (6 if q else 2) == 0), "cut_step": 1})
     send.append({"id": len(cases), "kind": "kytea", "path": "/repo/resources/kytea-model.bin", "probes": [], "cuts": True, "cut_step": 1})
